@@ -12,7 +12,7 @@ from harness.runner import Result
 PROPERTY = "C03"
 LEVEL = "exploration"
 RULE = (
-    "case = (psi, psi_dot, r, P): psi with norm log-uniform in [1e-9,pi) (plus 0, uniform, pi-10^-k), psi_dot and "
+    "case = (psi, psi_dot, r, P): psi with norm log-uniform in [1e-9,pi) or, a third of the time, [1e-30,pi) (plus 0, uniform, pi-10^-k), psi_dot and "
     "r in R^3, P a scaled quaternion. Every derivative routine is compared with the derivative of its map taken "
     "in 40-digit mpmath arithmetic (central differences with step 1e-12, truncation error ~1e-24), the map being "
     "re-implemented from its mathematical definition. Non-trivial: |psi|>0 and not axis-aligned; cases are "
@@ -28,10 +28,10 @@ ASSUMPTIONS = [
 ]
 CASES = {"quick": 600, "thorough": 30000}
 SHARDS = {"quick": 6, "thorough": 16}
-TECHNIQUE = "generated rotation vectors (log-uniform down to 1e-9) vs 40-digit mpmath derivative of the re-implemented map"
+TECHNIQUE = "generated rotation vectors (log-uniform down to 1e-30) vs 40-digit mpmath derivative of the re-implemented map"
 LEVEL_TEXT = (
     "Generated-input search with a high-precision differential oracle that is independent of float cancellation "
-    "in the code's own primal routines; covers every decade of |psi| from 1e-9 to pi. Sampling, not proof."
+    "in the code's own primal routines; covers every decade of |psi| from 1e-30 to pi. Sampling, not proof."
 )
 LEVEL_NOTE = "trusted: mpmath, the harness re-implementation of the maps (harness/mpref.py)"
 
@@ -39,7 +39,9 @@ LEVEL_NOTE = "trusted: mpmath, the harness re-implementation of the maps (harnes
 @st.composite
 def _case(draw):
     return {
-        "psi": draw(gen.rotvec(min_exp=-9)),
+        # norms down to 1e-30: relative rotations at rounding level (1e-17 ... 1e-22 between the nodes of a nearly
+        # straight rod) are what the SE(3) rod feeds these routines
+        "psi": draw(gen.rotvec(min_exp=draw(st.sampled_from([-9, -9, -30])))),
         "psi_dot": draw(gen.vec3(-2, 1, allow_zero=False)),
         "r": draw(gen.vec3(-2, 1)),
         "P": draw(gen.quat(-2, 2)),
@@ -54,8 +56,8 @@ def strategy(tier):
 
 def static_cases(tier):
     out = []
-    for k in range(0, 10):
-        a = 10.0 ** (-k)
+    for k in list(range(0, 10)) + [12, 16, 17, 21, 30]:
+        a = 10.0 ** (-k) * (1.0 if k < 10 else 1.6333319337652043)
         out.append({"psi": [0.6 * a, 0.0, 0.8 * a], "psi_dot": [0.3, -0.5, 0.2], "r": [1.0, 0.5, -0.25],
                     "P": [0.5, -0.5, 0.5, 0.5]})
     out.append({"psi": [0.0, 0.0, 0.0], "psi_dot": [0.3, -0.5, 0.2], "r": [1.0, 0.5, -0.25], "P": [2.0, 0.0, 0.0, 0.0]})
